@@ -10,7 +10,7 @@ operations, including operations on repositories the queue does not know.
 Model: C30/Model.lean (queue.go, backoff.go and the container/heap functions they drive, `heapIdx` maintained by
 `Swap`/`Push`/`Pop` as in the Go text; `MaybeRemoveMissing` as fixed).  Lemmas: C30/Lemmas, Heap, Ops, Steps.
 -/
-import ZoektModel.C30.OptsInv
+import ZoektModel.C30.PropsLemmas
 namespace ZoektModel.C30
 
 /-- every state reachable from `NewQueue` by any operation history -/
@@ -30,35 +30,6 @@ theorem heapIdx_consistent (d m : Int) (ops : List Op) : Cons (run (newQ d m) op
 theorem heap_ordered (d m : Int) (ops : List Op) (k : Nat) (hk0 : 0 < k) (hk : k < (run (newQ d m) ops).pq.length) :
     less (run (newQ d m) ops) k ((k - 1) / 2) = false :=
   (reachable_wf ⟨d, m, ops, rfl⟩).2 k hk0 hk
-
-theorem idsNodup_of_inj : ∀ (l : List Nat), Inj l → idsNodup l = true := by
-  intro l
-  induction l with
-  | nil => intro _; rfl
-  | cons a r ih =>
-    intro h
-    simp only [idsNodup, Bool.and_eq_true, Bool.not_eq_true']
-    refine ⟨?_, ih ?_⟩
-    · cases hc : r.contains a
-      · rfl
-      · exfalso
-        have hm : a ∈ r := by simpa using hc
-        obtain ⟨k, hk, e⟩ := List.getElem_of_mem hm
-        have := h 0 (k + 1) (by simp) (by simpa using hk) (by simp [at_, List.getElem?_eq_getElem hk, e])
-        omega
-    · intro i j hi hj e
-      have := h (i + 1) (j + 1) (by simpa using hi) (by simpa using hj) (by simpa [at_] using e)
-      omega
-
-theorem idsNodup_of_nodup : ∀ (l : List Nat), l.Nodup → idsNodup l = true := by
-  intro l
-  induction l with
-  | nil => intro _; rfl
-  | cons a r ih =>
-    intro h
-    rw [List.nodup_cons] at h
-    simp only [idsNodup, Bool.and_eq_true, Bool.not_eq_true']
-    exact ⟨by simpa using h.1, ih h.2⟩
 
 /-- **the executable well-formedness check of the driver holds of every reachable model state**: the predicate `wfB`
     that the check evaluates on the *implementation's* state after every operation is a theorem of the model -/
@@ -112,33 +83,6 @@ theorem pop_min {q : Q} (h : Reachable q) :
   obtain ⟨a, h1, h2, _, h4, h5⟩ := hp.2.2.2.1 o d hod
   refine ⟨a, h1, h2, h4, fun hin => ((h5 a).mp hin).2 rfl, fun b hb => ?_⟩
   rw [h5 b]; exact ⟨fun h => h.1, fun h => ⟨h, hb⟩⟩
-
-theorem hpop_length (q : Q) (hw : WF q) (hpos : 0 < q.pq.length) : (hpop q).1.pq.length + 1 = q.pq.length := by
-  have hc1 := cons_swap hw.1 0 (q.pq.length - 1) hpos (by omega)
-  have hd := down_spec (swap q 0 (q.pq.length - 1)) 0 (q.pq.length - 1) hc1 (by rw [swap_length]; omega) (by rw [swap_length]; omega)
-  show (pqPop (down (swap q 0 (q.pq.length - 1)) 0 (q.pq.length - 1)).1).1.pq.length + 1 = _
-  rw [pqPop_pq, hd.2.2.1]
-  simp only [List.length_take, downL_length, swap_length]
-  omega
-
-theorem mem_items_itemD {q : Q} (hc : Cons q) {x : Item} (hx : x ∈ q.items) : itemD q x.id = x ∧ tracked q x.id = true := by
-  have hf := find_of_mem_nodup hc.keys hx
-  exact ⟨by simp [itemD, hf], by simp [tracked, hf]⟩
-
-theorem itemD_mem_items {q : Q} {a : Nat} (ht : tracked q a = true) : itemD q a ∈ q.items := by
-  simp only [tracked] at ht
-  cases hf : find q.items a with
-  | none => rw [hf] at ht; cases ht
-  | some x => simp only [itemD, hf]; exact find_some_mem hf
-
-theorem contains_iff_inPq (l : List Nat) (a : Nat) : l.contains a = true ↔ InPq l a := by
-  simp only [List.contains_iff_mem]
-  constructor
-  · intro h
-    obtain ⟨k, hk, e⟩ := List.getElem_of_mem h
-    exact ⟨k, hk, by simp [at_, List.getElem?_eq_getElem hk, e]⟩
-  · rintro ⟨k, hk, e⟩
-    rw [← e]; simp only [at_, List.getD_eq_getElem?_getD, List.getElem?_eq_getElem hk]; exact List.getElem_mem hk
 
 /-- **the executable Pop clause of the driver holds of the model** (partial: for a popped item whose options are for
     itself — the other case is the known finding C30-pop-zero-opts): `popOk`, the predicate the check evaluates on the
@@ -402,30 +346,6 @@ theorem tracks_exactly_after_round {q : Q} (h : Reachable q) (ids : List Nat) (h
 /-- one round of the server loop: `MaybeRemoveMissing ids`, then `AddOrUpdate` for every id of `ids` -/
 def serverRound (q : Q) (ids : List Nat) (adds : List (Opts × Int)) : Q :=
   adds.foldl (fun q a => addOrUpdate q a.1 a.2) (removeMissing q ids).1
-
-theorem wf_adds (adds : List (Opts × Int)) (q : Q) (hw : WF q) (b : Nat) :
-    WF (adds.foldl (fun q a => addOrUpdate q a.1 a.2) q) ∧
-    tracked (adds.foldl (fun q a => addOrUpdate q a.1 a.2) q) b = (tracked q b || (adds.map (·.1.rid)).contains b) := by
-  induction adds generalizing q with
-  | nil => simp [hw]
-  | cons a r ih =>
-    simp only [List.foldl_cons, List.map_cons, List.contains_cons]
-    have ha := addOrUpdate_spec q a.1 a.2 hw
-    have := ih _ ha.1
-    exact ⟨this.1, by rw [this.2, ha.2.1 b, Bool.or_assoc]⟩
-
-theorem length_le_of_subset_nodup : ∀ (a b : List Nat), a.Nodup → (∀ x ∈ a, x ∈ b) → a.length ≤ b.length := by
-  intro a
-  induction a with
-  | nil => intro b _ _; simp
-  | cons x r ih =>
-    intro b hn hs
-    rw [List.nodup_cons] at hn
-    have hx : x ∈ b := hs x (by simp)
-    have := ih (b.erase x) hn.2 (fun y hy => (List.mem_erase_of_ne (fun e => hn.1 (by rw [← e]; exact hy))).mpr (hs y (by simp [hy])))
-    rw [List.length_erase_of_mem hx] at this
-    have hpos : 0 < b.length := List.length_pos_of_mem hx
-    simp only [List.length_cons]; omega
 
 /-- **the heuristic shortcut converges**: `MaybeRemoveMissing` skips its work when the number of tracked repositories
     equals the number of ids it is given, which can be wrong for one round; after two rounds of the server loop with the
